@@ -13,7 +13,7 @@ pub fn meta() -> Meta {
     Meta {
         id: "C12",
         level: "exploration",
-        rule: "paired FASTQ read sets through the real SkaDict::new (in-process) against a brute-force count model: genome g of k+2 letters and a variant g' differing in the middle base of the central window, k in {5,9,31,33} (thorough: + 7, 63), both strand modes. Family A (counts): min-count c=1..6 x every multiplicity pair (a,a') in {0,c-1,c,c+1}^2 for the two central k-mers x every split of each multiplicity between file 1 (forward) and file 2 (reverse complement). Family B (quality): c in 1..3, three quality rules x min-qual in {0,1,20,40} x one designated low-quality base (middle, middle-1, first, last of a k-long read; positions 0, h, h+1, k+1 of a (k+2)-long read) with quality in {Q-1,Q,Q+1} on exactly one of the c copies. Family C: N at every position of the (k+2)-long read, and of a read of 2k+4 letters (k or more valid bases behind the N; also a low-quality base there under the strict rule). Family D: the same through `ska build -f` option parsing (one of the two files with CRLF line ends in two of the four configurations), and a single FASTQ file given as positional argument or as a two-field list line. Family P (k in {5,7,31,33}; thorough + 9, 15, 63): reads holding a k-mer whose arms are reverse complements of each other (X m rc(X), each m; bare, with flanks), c=1..3, totals c-1/c/c+1 split between the strands and the files in every way. Family E (k in {5,33}; thorough + 7, 31, 63): every multiset of up to three reads drawn from all substrings of length k..k+3, both orientations, of a (k+3)-letter genome and of its one-substitution variant (quick: triples from the genome only), all in file 1 or alternating between the files, c=1..3 (the same k-mer met as first window of one read and as rolled window of another, on either strand); and every pair of such reads with one base of quality Q-1 or Q at every position of the first (k<=7; ends and window middles otherwise; quick: k=5 only), middle and strict rule, c=1..2. One larger data set (~2*10^4 distinct k-mers plus singleton error k-mers) bounds the share of below-threshold k-mers that enter. Non-trivial = the model's dictionary is non-empty or a k-mer sits exactly at a threshold.".into(),
+        rule: "paired FASTQ read sets through the real SkaDict::new (in-process) against a brute-force count model: genome g of k+2 letters and a variant g' differing in the middle base of the central window, k in {5,9,31,33} (thorough: + 7, 63), both strand modes. Family A (counts): min-count c=1..6 x every multiplicity pair (a,a') in {0,c-1,c,c+1}^2 for the two central k-mers x every split of each multiplicity between file 1 (forward) and file 2 (reverse complement). Family B (quality): c in 1..3, three quality rules x min-qual in {0,1,20,40} x one designated low-quality base (middle, middle-1, first, last of a k-long read; positions 0, h, h+1, k+1 of a (k+2)-long read) with quality in {Q-1,Q,Q+1} on exactly one of the c copies. Family C: N at every position of the (k+2)-long read, and of a read of 2k+4 letters (k or more valid bases behind the N; also a low-quality base there under the strict rule). Family D: the same through `ska build -f` option parsing (one of the two files with CRLF line ends in two of the four configurations), and a single FASTQ file given as positional argument or as a two-field list line. Family P (k in {5,7,31,33}; thorough + 9, 15, 63): reads holding a k-mer whose arms are reverse complements of each other (X m rc(X), each m; also homopolymer arms A^h m A^h, A^h m T^h, G^h m G^h; bare, with flanks), c=1..3, totals c-1/c/c+1 split between the strands and the files in every way. Family E (k in {5,33}; thorough + 7, 31, 63): every multiset of up to three reads drawn from all substrings of length k..k+3, both orientations, of a (k+3)-letter genome and of its one-substitution variant (quick: triples from the genome only), all in file 1 or alternating between the files, c=1..3 (the same k-mer met as first window of one read and as rolled window of another, on either strand); and every pair of such reads with one base of quality Q-1 or Q at every position of the first (k<=7; ends and window middles otherwise; quick: k=5 only), middle and strict rule, c=1..2. One larger data set (~2*10^4 distinct k-mers plus singleton error k-mers) bounds the share of below-threshold k-mers that enter. Non-trivial = the model's dictionary is non-empty or a k-mer sits exactly at a threshold.".into(),
         assumptions: vec!["an extra entry would only be acceptable as a counting-filter collision; on these inputs none is expected and any extra is reported".into(), "a sample in which nothing reaches the threshold may be refused".into()],
         exhaustive_when_uncapped: true,
     }
@@ -286,6 +286,11 @@ pub fn run(ctx: &Ctx, rep: &mut Report) {
                     continue;
                 }
                 let kmer: Vec<u8> = [x.as_slice(), &[m], rc_str(&x).as_slice()].concat();
+                // also homopolymer arms around m (the all-zero / all-one words; A^h m T^h is self-complementary again)
+                let homo_a: Vec<u8> = [vec![b'A'; h], vec![m], vec![b'A'; h]].concat();
+                let homo_at: Vec<u8> = [vec![b'A'; h], vec![m], vec![b'T'; h]].concat();
+                let homo_g: Vec<u8> = [vec![b'G'; h], vec![m], vec![b'G'; h]].concat();
+                for kmer in [kmer, homo_a, homo_at, homo_g] {
                 // bare (read of exactly k letters) and embedded in flanks (first window and rolled window)
                 for (lf, rf) in [(&b""[..], &b""[..]), (&b"GT"[..], &b"CA"[..]), (&b""[..], &b"TTG"[..])] {
                     let read: Read = ([lf, kmer.as_slice(), rf].concat(), vec![30u8; lf.len() + k + rf.len()]);
@@ -307,6 +312,7 @@ pub fn run(ctx: &Ctx, rep: &mut Report) {
                             }
                         }
                     }
+                }
                 }
                 rep.corner("self_complementary_arms");
             }
@@ -441,7 +447,8 @@ pub fn run(ctx: &Ctx, rep: &mut Report) {
         let crlf = |b: Vec<u8>| -> Vec<u8> { if k == 33 || c == 1 { String::from_utf8(b).unwrap().replace('\n', "\r\n").into_bytes() } else { b } };
         std::fs::write(format!("{dir}/r1.fastq"), crlf(fastq(&files[0]))).unwrap();
         std::fs::write(format!("{dir}/r2.fastq"), fastq(&files[1])).unwrap();
-        std::fs::write(format!("{dir}/list.txt"), "smp\tr1.fastq\tr2.fastq\n").unwrap();
+        // the list file: tab-separated with LF, or space-separated with CRLF
+        std::fs::write(format!("{dir}/list.txt"), if k == 31 || c == 1 { "smp  r1.fastq r2.fastq\r\n" } else { "smp\tr1.fastq\tr2.fastq\n" }).unwrap();
         for rc in [true, false] {
             rep.evaluations += 1;
             rep.nontrivial += 1;
